@@ -1426,7 +1426,7 @@ def dot(a, b):
     b = asarray(b) if not isinstance(b, Arr) else b
     if a.ndim == 0 or b.ndim == 0:
         return multiply(a, b)
-    if a.term is not None and b.term is not None:
+    if (a.term is not None or b.term is not None) and a.ndim <= 2 and b.ndim <= 2:
         from . import matmodel
         return matmodel.matmul(a, b)
     c = cur()
@@ -1705,3 +1705,59 @@ def argsort(a):
     out = Arr(((n,),), fn, "int")
     out.meta["perm"] = (P, Q)
     return out
+
+
+# ----------------------------------------------------------------------------------
+# series abstraction: a 1-D array as a term of sort Ser (uninterpreted function of the free constants of its
+# element expression), so that opaque transforms of "the same series" are equal by congruence
+# ----------------------------------------------------------------------------------
+
+SerSort = z3.DeclareSort("Ser")
+
+
+def series_term(fn1, n):
+    """fn1: index -> scalar (element of the series), n: length.  Returns a z3 term of sort Ser."""
+    c = cur()
+    bv = z3.Int("s!0")
+    c.numpy_mode += 1
+    try:
+        v = fn1(bv)
+    finally:
+        c.numpy_mode -= 1
+    if isinstance(v, (F, int, float, z3.ArithRef, bool, z3.BoolRef)):
+        v = sym.toF(v)
+        exprs = [z3.simplify(v.v), zb(v.nan)]
+    else:
+        v = sym.toC(v)
+        exprs = [z3.simplify(v.re), z3.simplify(v.im), zb(v.nan)]
+    exprs.append(zi(n) if not is_pyint(n) else z3.IntVal(n))
+    free = []
+    seen = set()
+    for e in exprs:
+        st = [e]
+        while st:
+            x = st.pop()
+            if x.get_id() in seen:
+                continue
+            seen.add(x.get_id())
+            if z3.is_const(x) and x.decl().kind() == z3.Z3_OP_UNINTERPRETED and x.get_id() != bv.get_id() \
+                    and x.sort() in (z3.IntSort(), z3.RealSort(), z3.BoolSort()):
+                free.append(x)
+                continue
+            st.extend(reversed(x.children()))
+    holes = [z3.Const(f"hole!{j}", x.sort()) for j, x in enumerate(free)]
+    pairs = list(zip(free, holes))
+    key = ("series", tuple((z3.substitute(e, *pairs) if pairs else e).sexpr() for e in exprs), tuple(str(x.sort()) for x in free))
+    decl = c.memo.get(key)
+    if decl is None:
+        nm = c.fresh_name("SER")
+        decl = z3.Function(nm, *[x.sort() for x in free], SerSort) if free else z3.Const(nm, SerSort)
+        c.memo[key] = decl
+    return decl(*free) if free else decl
+
+
+def last_axis_series(a, lead):
+    """series term of a[lead..., :]"""
+    f = a.snapshot_fn()
+    ax = a.axes[-1]
+    return series_term(lambda t: f(tuple(lead) + (split_index(t, ax),)), a.extent(a.ndim - 1))
